@@ -16,6 +16,7 @@ MMDBLOCKS = [b"mail <user@example.com> auto\n\n", b"a [mail](mailto:x@y.org) lin
              b"variables [%title] [%author] [%my custom key] [%nosuchkey] here\n\n",
              # bodies whose FIRST byte is markup (what precedes the body differs between a bare body and one after a metadata block)
              b"*foo*bar* baz\n\n", b"**foo**bar** baz\n\n", b"_foo_bar_ baz\n\n", b"\"quoted\" first 'single'\n\n", b"'single' first\n\n", b"`code` first\n\n", b"[link](http://u/) first\n\n", b"<x@y.z> first\n\n",
+             b"Warning: this looks like a key\nand goes on\n\n", b"Note: short\n\n",
              b"--- dash first\n\n", b"... dots first\n\n", b"^sup^ first ~sub~\n\n", b"{++add++} first\n\n", b"$m$ first\n\n", b"![i](i.png) first\n\n", b"[^n1] note first\n\n[^n1]: n\n\n", b"\\* escaped first\n\n"]
 FORMATS = [("html", 0), ("latex", 2), ("beamer", 3), ("memoir", 4)]
 EXTS = [mmd.EXT_DEFAULT, mmd.EXT_DEFAULT & ~mmd.EXT["SMART"], mmd.EXT["NOTES"] | mmd.EXT["CRITIC"] | mmd.EXT["NO_LABELS"] | mmd.EXT["PROCESS_HTML"]]
@@ -30,6 +31,9 @@ def meta_blocks():
     for a, b in itertools.combinations(range(0, len(OTHER), 3), 2): out.append(("other-pair", OTHER[a] + b"\n" + OTHER[b] + b"\n", True, True))
     out.append(("yaml", b"---\n" + OTHER[0] + b"\n" + OTHER[1] + b"\n---\n", True, True))
     out.append(("other+control", OTHER[0] + b"\n" + CONTROL[0] + b"\n", True, False))
+    # the line that ends the block is blank but not empty (tab / spaces)
+    for sep in (b"\t", b"    ", b" "):
+        out.append(("other-blank-line-with-whitespace", OTHER[0] + b"\n" + sep, True, True)); out.append(("control-blank-line-with-whitespace", CONTROL[0] + b"\n" + sep, False, False))
     return out
 
 def bodies(tier):
@@ -61,7 +65,12 @@ def make_case(metas, bods):
         if dflt != (comp if want_complete else snip):
             other = "snippet" if dflt == snip else "complete" if dflt == comp else "neither"
             v.append(("wrapper:default-choice:%s:%s" % (label, fname), "without -f/-s the output is %s, expected %s" % (other, "complete" if want_complete else "snippet"), case_d))
-        if unrelated and mb and b"[%" not in body:          # variable substitution is a documented channel from metadata into the body
+        if label.endswith("blank-line-with-whitespace"):
+            # a separator line made of blanks ends the block exactly like an empty line
+            ref_doc = mb.rstrip(b" \t") + b"\n" + body
+            if mmd.convert(ref_doc, ext | S, f) != snip:
+                v.append(("wrapper:whitespace-separator-changes-body:" + fname, "a metadata block ended by a line of blanks renders differently from the same block ended by an empty line", case_d))
+        if unrelated and mb and b"[%" not in body and not re.match(rb"^[A-Za-z0-9][^\n:]*:", first_line):          # variable substitution is a documented channel from metadata into the body
             bare = mmd.convert(body, ext | S, f)
             if bare != snip:
                 v.append(("wrapper:unrelated-metadata-changes-body:" + fname, "snippet with metadata block %r differs from snippet of the bare body" % mb, case_d))
